@@ -1,0 +1,285 @@
+//go:build verif
+
+package stat
+
+import (
+	"encoding/json"
+	"fmt"
+	"math"
+	"strconv"
+	"sync"
+	"testing"
+	"time"
+
+	"github.com/gotid/god/internal/verifdrv"
+	"github.com/gotid/god/internal/verifexec"
+	"github.com/gotid/god/lib/executors"
+	"github.com/gotid/god/lib/timex"
+)
+
+// C16 driver for Metrics (metricsContainer feeding a PeriodicalExecutor): scripted Add / AddDrop /
+// Tick / Flush sequences and gated concurrent adders; reports what every Execute received (task ids,
+// duration, drops) and the StatReport written for it. No oracle logic.
+
+type verifC16Op struct {
+	Op      string         `json:"op"` // add | drop | tick | flush | par | overlap
+	N       int            `json:"n"`
+	Via     string         `json:"via"` // overlap: the Execute held is the one of a "tick" or of a "flush"
+	Threads [][]verifC16Op `json:"threads"`
+}
+
+type verifC16Case struct {
+	Ops []verifC16Op `json:"ops"`
+}
+
+type verifC16Add struct {
+	ID   int   `json:"id"`
+	Call int64 `json:"call"`
+	Ret  int64 `json:"ret"`
+}
+
+type verifC16Call struct {
+	Kind string `json:"kind"`
+	Call int64  `json:"call"`
+	Ret  int64  `json:"ret"`
+}
+
+type verifC16Tick struct {
+	Seq       int64 `json:"seq"`
+	Delivered bool  `json:"delivered"`
+	Done      int64 `json:"done"`
+}
+
+type verifC16Batch struct {
+	IDs    []int `json:"ids"`
+	Start  int64 `json:"start"`
+	End    int64 `json:"end"`
+	Drops  int   `json:"drops"`  // pair.drops
+	DurMs  int64 `json:"dur_ms"` // pair.duration
+	Count  int   `json:"count"`  // report: round(ReqsPerSecond * interval seconds)
+	RDrops int   `json:"rdrops"` // report.Drops
+	SumMs  int64 `json:"sum_ms"` // report: round(Average * count)
+	Named  bool  `json:"named"`  // report carries the metrics name
+}
+
+type verifC16Writer struct {
+	mu   sync.Mutex
+	last *StatReport
+}
+
+func (w *verifC16Writer) Write(r *StatReport) error {
+	w.mu.Lock()
+	w.last = r
+	w.mu.Unlock()
+	return nil
+}
+
+// verifC16Tap sits in front of the executor's container and records what Execute receives.
+type verifC16Tap struct {
+	executors.TaskContainer
+	p       *verifexec.Probe
+	w       *verifC16Writer
+	mu      sync.Mutex
+	batches []verifC16Batch
+	gate    chan struct{} // non-nil: Execute parks at entry, before looking at what it received
+	parked  int
+}
+
+func (c *verifC16Tap) Execute(v any) {
+	b := verifC16Batch{Start: c.p.Next(), IDs: []int{}}
+	c.mu.Lock()
+	gate := c.gate
+	if gate != nil {
+		c.parked++
+	}
+	c.mu.Unlock()
+	if gate != nil {
+		c.p.Bump(func() {})
+		<-gate
+	}
+	if pair, ok := v.(tasksDurationPair); ok {
+		for _, t := range pair.tasks {
+			id, _ := strconv.Atoi(t.Description)
+			b.IDs = append(b.IDs, id)
+		}
+		b.Drops = pair.drops
+		b.DurMs = int64(pair.duration / time.Millisecond)
+	}
+	c.TaskContainer.Execute(v)
+	c.w.mu.Lock()
+	if r := c.w.last; r != nil {
+		b.Count = int(math.Round(float64(r.ReqsPerSecond) * float64(logInterval/time.Second)))
+		b.RDrops = r.Drops
+		b.SumMs = int64(math.Round(float64(r.Average) * float64(b.Count)))
+		b.Named = r.Name == "verif"
+		c.w.last = nil
+	} else {
+		b.Count = -1
+	}
+	c.w.mu.Unlock()
+	b.End = c.p.Next()
+	c.mu.Lock()
+	c.batches = append(c.batches, b)
+	c.mu.Unlock()
+}
+
+func TestVerifDriverC16(t *testing.T) {
+	DisableLog()
+	verifdrv.Run(t, func(raw json.RawMessage) any {
+		var c verifC16Case
+		if err := json.Unmarshal(raw, &c); err != nil {
+			return map[string]any{"error": err.Error()}
+		}
+		timex.VerifSetNow(time.Hour)
+		w := &verifC16Writer{}
+		SetReportWriter(w)
+		defer SetReportWriter(nil)
+		m := NewMetrics("verif")
+		p := verifexec.Attach(m.executor)
+		tap := &verifC16Tap{p: p, w: w}
+		executors.VerifWrapContainer(m.executor, func(inner executors.TaskContainer) executors.TaskContainer {
+			tap.TaskContainer = inner
+			return tap
+		})
+
+		var (
+			mu    sync.Mutex
+			next  int
+			drops int
+			adds  []verifC16Add
+			calls []verifC16Call
+			ticks []verifC16Tick
+		)
+		simple := func(op verifC16Op) {
+			switch op.Op {
+			case "add":
+				for i := 0; i < op.N; i++ {
+					mu.Lock()
+					next++
+					id := next
+					k := len(adds)
+					adds = append(adds, verifC16Add{ID: id, Call: p.Next()})
+					mu.Unlock()
+					m.Add(Task{Duration: time.Duration(id) * time.Millisecond, Description: strconv.Itoa(id)})
+					mu.Lock()
+					adds[k].Ret = p.Next()
+					mu.Unlock()
+				}
+			case "drop":
+				for i := 0; i < op.N; i++ {
+					m.AddDrop()
+					mu.Lock()
+					drops++
+					mu.Unlock()
+				}
+			case "flush":
+				mu.Lock()
+				k := len(calls)
+				calls = append(calls, verifC16Call{Kind: "flush", Call: p.Next()})
+				mu.Unlock()
+				m.executor.Flush()
+				mu.Lock()
+				calls[k].Ret = p.Next()
+				mu.Unlock()
+			case "tick":
+				tk := verifC16Tick{Seq: p.Next()}
+				tk.Delivered = p.Tick()
+				tk.Done = p.Next()
+				mu.Lock()
+				ticks = append(ticks, tk)
+				mu.Unlock()
+			}
+		}
+		for i, op := range c.Ops {
+			if p.Hung() != "" {
+				break
+			}
+			what := fmt.Sprintf("op#%d %s", i, op.Op)
+			switch op.Op {
+			case "par":
+				gate := make(chan struct{})
+				var wg sync.WaitGroup
+				for _, th := range op.Threads {
+					th := th
+					wg.Add(1)
+					go func() {
+						defer wg.Done()
+						<-gate
+						for _, o := range th {
+							simple(o)
+						}
+					}()
+				}
+				close(gate)
+				if p.Bounded(what, wg.Wait) {
+					p.Settle(what)
+				}
+			case "overlap":
+				// an Execute (of a tick's or an explicit Flush) is held right after RemoveAll while N more
+				// tasks are added; then it goes on
+				gate := make(chan struct{})
+				tap.mu.Lock()
+				tap.gate = gate
+				tap.parked = 0
+				tap.mu.Unlock()
+				done := make(chan struct{})
+				go func() {
+					defer close(done)
+					simple(verifC16Op{Op: op.Via})
+				}()
+				parked := p.UntilFor(verifexec.Patience/4, func() bool {
+					tap.mu.Lock()
+					defer tap.mu.Unlock()
+					return tap.parked > 0
+				})
+				if parked {
+					simple(verifC16Op{Op: "add", N: op.N})
+				}
+				tap.mu.Lock()
+				tap.gate = nil
+				tap.mu.Unlock()
+				close(gate)
+				select {
+				case <-done:
+				case <-time.After(verifexec.Patience):
+					p.SetHung(what + ": did not return")
+				}
+				if !parked {
+					simple(verifC16Op{Op: "add", N: op.N})
+				}
+				p.Settle(what)
+				if op.Via == "tick" {
+					mu.Lock()
+					ticks[len(ticks)-1].Done = p.Next()
+					mu.Unlock()
+				}
+			case "tick":
+				simple(op)
+				p.Settle(what)
+				mu.Lock()
+				ticks[len(ticks)-1].Done = p.Next()
+				mu.Unlock()
+			default:
+				if p.Bounded(what, func() { simple(op) }) {
+					p.Settle(what)
+				}
+			}
+		}
+		hung := p.Hung()
+		_, _, _, queued := p.State()
+		mu.Lock()
+		defer mu.Unlock()
+		tap.mu.Lock()
+		defer tap.mu.Unlock()
+		for _, b := range tap.batches {
+			if hung == "" && (b.Count < 0 || !b.Named) {
+				hung = "an executed batch produced no report under the metrics name"
+			}
+		}
+		return map[string]any{
+			"adds": append([]verifC16Add{}, adds...), "calls": append([]verifC16Call{}, calls...),
+			"ticks": append([]verifC16Tick{}, ticks...), "batches": append([]verifC16Batch{}, tap.batches...),
+			"perop": []any{}, "hung": hung, "pending": queued, "drops": drops,
+		}
+	})
+}
